@@ -1,557 +1,16 @@
-(* Bridges for the `gofn` translator: the Go functions that harness/cmd/translate gofn re-reads
-   from /repo on every run (Gen/GoFnGen.v, abstract syntax of Lib/Imp.v) compute, under the
-   semantics of Lib/Imp.v, exactly what the hand-written model functions compute:
+(* Index of the bridges of the `gofn` translator (harness/cmd/translate/gofn.go): small Go loops
+   and branchy helpers that several models copied by hand are re-read from /repo on every run as
+   abstract syntax of Lib/Imp.v, and proved to compute what the hand-written model computes.
+   One generated file and one bridge file per property served, so that a change of one function
+   breaks the obligations of the property it belongs to and of no other:
 
-     lib/math GCD, GCDM (LCM)            Model/Scenario.v  gcd_go, gcdm_go            (C15)
-     lib/mp calcIndex                    Model/AmmoRobust.v calc_index (C13), Model/Robust.v calc_index (C19)
-     guns/http autotag                   Model/Sample.v    autotag_go                 (C10)
-     schedule.NewInstanceStep            Model/StartLoop.v new_instance_step          (C12)
-     coreutil.Waiter IsSlowDown, Wait    Model/Waiter.v    is_slow_down, wait wfixed  (C04)
+     translator     generated file        bridge file                 Go function(s)                     model
+     gofn-math      Gen/GoFnMathGen.v     Gen/GoFnMath_bridge.v       lib/math GCD, GCDM (LCM)           Model/Scenario.v gcd_go, gcdm_go (C15)
+     gofn-mp        Gen/GoFnMpGen.v       Gen/GoFnMp_bridge.v         lib/mp calcIndex                   Model/AmmoRobust.v calc_index (C13), Model/Robust.v calc_index (C19)
+     gofn-httpgun   Gen/GoFnHttpgunGen.v  Gen/GoFnHttpgun_bridge.v    guns/http autotag                  Model/Sample.v autotag_go (C10)
+     gofn-istep     Gen/GoFnIstepGen.v    Gen/GoFnIstep_bridge.v      schedule.NewInstanceStep           Model/StartLoop.v new_instance_step (C12)
+     gofn-waiter    Gen/GoFnWaiterGen.v   Gen/GoFnWaiter_bridge.v     coreutil.Waiter IsSlowDown, Wait   Model/Waiter.v is_slow_down, wait wfixed (C04)
 
-   Go integers are unbounded Z here (see Lib/Imp.v).  If the source drifts (another operand
-   order, another comparison, a dropped guard) the lemma about that function no longer checks. *)
-From Coq Require Import ZArith NArith List String Bool Lia.
-From PV Require Import Lib.AmmoBytes Lib.AmmoDecimal Model.Scenario Model.Sample Model.StartLoop Model.Waiter.
-From PV Require Model.AmmoRobust Model.Robust.
-From PV Require Import Proofs.ScenarioRingProofs Proofs.StartLoopProofs Proofs.SampleProofs.
-From PV Require Import Lib.Imp Gen.GoFnGen.
-Import ListNotations.
-Local Open Scope string_scope.
-Local Open Scope list_scope.
-Local Open Scope Z_scope.
+   This file only collects them (it is not an obligation of any check). *)
+From PV Require Export Gen.GoFnMath_bridge Gen.GoFnMp_bridge Gen.GoFnHttpgun_bridge Gen.GoFnIstep_bridge Gen.GoFnWaiter_bridge.
 
-(* no external call is made *)
-Definition no_ext : string -> list val -> option (list val) := fun _ _ => None.
-
-(* ==================================================================================== *)
-(* lib/math/gcd_lcm.go *)
-
-Lemma find_GCD : find_func "GCD" gen_prog_math = Some gen_GCD.
-Proof. reflexivity. Qed.
-Lemma find_GCDM : find_func "GCDM" gen_prog_math = Some gen_GCDM.
-Proof. reflexivity. Qed.
-Lemma find_LCM : find_func "LCM" gen_prog_math = Some gen_LCM.
-Proof. reflexivity. Qed.
-
-Definition gcd_loop_stmt : stmt :=
-  SFor (EBin OAnd (EBin OGt (EVar "a") (ELit 0)) (EBin OGt (EVar "b") (ELit 0)))
-       (SIf (EBin OGe (EVar "a") (EVar "b"))
-            (SAssign ["a"] [EBin ORem (EVar "a") (EVar "b")])
-            (SAssign ["b"] [EBin ORem (EVar "b") (EVar "a")]))
-       SSkip.
-
-(* the loop of GCD follows gcd_loop step by step *)
-Lemma gcd_loop_imp : forall f a b v, gcd_loop f a b = Some v ->
-  exists fuel a' b',
-    exec gen_prog_math no_ext fuel gcd_loop_stmt [("a", VInt a); ("b", VInt b)]
-      = SNormal [("a", VInt a'); ("b", VInt b')] /\ v = (if b' <? a' then a' else b').
-Proof.
-  induction f as [|f IH]; intros a b v H; cbn [gcd_loop] in H.
-  - destruct (0 <? a) eqn:Ha, (0 <? b) eqn:Hb; cbn [andb] in H; try discriminate;
-      injection H as <-; exists O, a, b; (split; [|reflexivity]);
-      unfold gcd_loop_stmt; rewrite exec_eq; imp_eval; rewrite ?Ha, ?Hb; reflexivity.
-  - destruct (0 <? a) eqn:Ha, (0 <? b) eqn:Hb; cbn [andb] in H;
-      try (injection H as <-; exists O, a, b; (split; [|reflexivity]);
-           unfold gcd_loop_stmt; rewrite exec_eq; imp_eval; rewrite ?Ha, ?Hb; reflexivity).
-    b2p.
-    destruct (b <=? a) eqn:Hab; b2p;
-      destruct (IH _ _ _ H) as (fuel & a' & b' & E & Hv);
-      exists (S fuel), a', b'; (split; [|exact Hv]);
-      unfold gcd_loop_stmt in *;
-      (eapply for_unroll; [imp_go; reflexivity|imp_nz|imp_go; reflexivity|imp_go; reflexivity|exact E]).
-Qed.
-
-Lemma gcd_go_total a b : exists v, gcd_go a b = Some v.
-Proof.
-  destruct (0 <? a) eqn:Ha; [destruct (0 <? b) eqn:Hb|].
-  - b2p. eexists. apply gcd_go_correct; assumption.
-  - eexists. unfold gcd_go. cbn [gcd_loop]. rewrite Ha, Hb. reflexivity.
-  - eexists. unfold gcd_go. cbn [gcd_loop]. rewrite Ha. reflexivity.
-Qed.
-
-(* the body of GCD, as a callee *)
-Lemma gcd_body_imp a b v : gcd_go a b = Some v ->
-  exists fuel, exec gen_prog_math no_ext fuel (f_body gen_GCD) [("a", VInt a); ("b", VInt b)] = SRet [VInt v].
-Proof.
-  intros Hv. destruct (gcd_loop_imp _ _ _ _ Hv) as (fuel & a' & b' & E & Hr).
-  exists fuel. unfold gen_GCD. imp_eval. fold gcd_loop_stmt.
-  rewrite exec_eq, E. imp_go; subst; reflexivity.
-Qed.
-
-(* GCD: for ALL a, b the translated function returns what the model returns *)
-Lemma bridge_GCD a b :
-  exists fuel v, gcd_go a b = Some v /\ run gen_prog_math no_ext fuel "GCD" [VInt a; VInt b] = Ret [VInt v].
-Proof.
-  destruct (gcd_go_total a b) as (v & Hv). destruct (gcd_body_imp a b v Hv) as (fuel & E).
-  exists fuel, v. split; [exact Hv|]. unfold run. rewrite find_GCD.
-  unfold gen_GCD in *. cbn [f_body f_params] in *. imp_eval. rewrite E. reflexivity.
-Qed.
-
-(* ---- GCDM (recursive, on the slice weights[:l-1]) ---- *)
-Lemma index_last2 pre y z :
-  index (pre ++ [y; z]) (Z.of_nat (List.length (pre ++ [y; z])) - 2) = Ok (VInt y).
-Proof.
-  replace (Z.of_nat (List.length (pre ++ [y; z])) - 2) with (Z.of_nat (List.length pre))
-    by (rewrite app_length; cbn [List.length]; lia).
-  apply index_app_mid.
-Qed.
-
-Lemma index_last1 pre y z :
-  index (pre ++ [y; z]) (Z.of_nat (List.length (pre ++ [y; z])) - 1) = Ok (VInt z).
-Proof.
-  replace (Z.of_nat (List.length (pre ++ [y; z])) - 1) with (Z.of_nat (List.length (pre ++ [y])))
-    by (rewrite !app_length; cbn [List.length]; lia).
-  change (pre ++ [y; z]) with (pre ++ [y] ++ [z]). rewrite app_assoc. apply index_app_mid.
-Qed.
-
-Lemma slice_init pre y z :
-  slice (pre ++ [y; z]) 0 (Z.of_nat (List.length (pre ++ [y; z])) - 1) = Ok (VArr (pre ++ [y])).
-Proof.
-  replace (Z.of_nat (List.length (pre ++ [y; z])) - 1) with (Z.of_nat (List.length (pre ++ [y])))
-    by (rewrite !app_length; cbn [List.length]; lia).
-  change (pre ++ [y; z]) with (pre ++ [y] ++ [z]). rewrite app_assoc. apply slice_app_prefix.
-Qed.
-
-Lemma gcdm_body_imp : forall rw v, gcdm_rev rw = Some v ->
-  exists fuel, exec gen_prog_math no_ext fuel (f_body gen_GCDM) [("weights", VArr (rev rw))] = SRet [VInt v].
-Proof.
-  induction rw as [|z rw IH]; intros v H.
-  - injection H as <-. exists O. unfold gen_GCDM. cbn [rev f_body]. imp_go. reflexivity.
-  - destruct rw as [|y rest'].
-    + injection H as <-. exists O. unfold gen_GCDM. cbn [rev app f_body]. imp_go. reflexivity.
-    + rewrite gcdm_rev_eq in H.
-      destruct (gcd_go y z) as [res|] eqn:Eg; [|discriminate].
-      destruct (gcd_body_imp y z res Eg) as (f1 & E1).
-      assert (Hrev : rev (z :: y :: rest') = rev rest' ++ [y; z]).
-      { cbn [rev]. rewrite <- app_assoc. reflexivity. }
-      rewrite Hrev. set (pre := rev rest') in *.
-      assert (Hlen : Z.of_nat (List.length (pre ++ [y; z])) = Z.of_nat (List.length pre) + 2).
-      { rewrite app_length. cbn [List.length]. lia. }
-      destruct rest' as [|x rest''].
-      * (* l == 2 *)
-        injection H as <-. exists (S f1). unfold gen_GCDM. cbn [f_body].
-        subst pre. cbn [rev app] in *.
-        imp_go.
-        erewrite call_ret; [|imp_eval; reflexivity|apply find_GCD|reflexivity|
-                            apply (exec_mono_eq _ _ f1); [exact E1|discriminate|lia]].
-        imp_go. reflexivity.
-      * destruct (gcdm_rev (y :: x :: rest'')) as [g|] eqn:Em; [|discriminate].
-        destruct (IH g eq_refl) as (f2 & E2).
-        destruct (gcd_body_imp g res v H) as (f3 & E3).
-        assert (Hpre : rev (y :: x :: rest'') = pre ++ [y]) by reflexivity.
-        rewrite Hpre in E2.
-        assert (Hl : 1 <= Z.of_nat (List.length pre)).
-        { subst pre. cbn [rev]. rewrite app_length. cbn [List.length]. lia. }
-        set (F := Nat.max f1 (Nat.max f2 f3)).
-        exists (S F). unfold gen_GCDM. cbn [f_body].
-        imp_go.
-        erewrite call_ret; [|imp_eval; rewrite index_last2, index_last1; reflexivity|apply find_GCD|reflexivity|
-                            apply (exec_mono_eq _ _ f1); [exact E1|discriminate|subst F; lia]].
-        imp_go.
-        erewrite call_ret; [|imp_eval; rewrite slice_init; reflexivity|apply find_GCDM|reflexivity|
-                            apply (exec_mono_eq _ _ f2); [exact E2|discriminate|subst F; lia]].
-        imp_go.
-        erewrite call_ret; [|imp_eval; reflexivity|apply find_GCD|reflexivity|
-                            apply (exec_mono_eq _ _ f3); [exact E3|discriminate|subst F; lia]].
-        imp_go. reflexivity.
-Qed.
-
-Lemma gcdm_rev_total rw : exists v, gcdm_rev rw = Some v.
-Proof.
-  induction rw as [|z rw IH]; [eexists; reflexivity|].
-  destruct rw as [|y rest']; [eexists; reflexivity|].
-  rewrite gcdm_rev_eq. destruct (gcd_go_total y z) as (res & ->).
-  destruct rest' as [|x r]; [eexists; reflexivity|].
-  destruct IH as (g & ->). apply gcd_go_total.
-Qed.
-
-(* GCDM: for ALL weight lists the translated function returns what the model returns *)
-Lemma bridge_GCDM ws :
-  exists fuel v, gcdm_go ws = Some v /\ run gen_prog_math no_ext fuel "GCDM" [VArr ws] = Ret [VInt v].
-Proof.
-  unfold gcdm_go. destruct (gcdm_rev_total (rev ws)) as (v & Hv).
-  destruct (gcdm_body_imp _ _ Hv) as (fuel & E). rewrite rev_involutive in E.
-  exists fuel, v. split; [exact Hv|]. unfold run. rewrite find_GCDM.
-  unfold gen_GCDM in *. cbn [f_body f_params] in *. imp_eval. rewrite E. reflexivity.
-Qed.
-
-(* LCM has no model (pandora does not call it): (a*b)/GCD(a,b), dividing by zero when GCD = 0 *)
-Lemma bridge_LCM a b :
-  exists fuel g, gcd_go a b = Some g /\
-    run gen_prog_math no_ext fuel "LCM" [VInt a; VInt b] = (if g =? 0 then Panic else Ret [VInt (Z.quot (a * b) g)]).
-Proof.
-  destruct (gcd_go_total a b) as (g & Hg). destruct (gcd_body_imp a b g Hg) as (fuel & E).
-  exists (S fuel), g. split; [exact Hg|]. unfold run. rewrite find_LCM.
-  unfold gen_LCM. cbn [f_body f_params]. imp_go;
-  (erewrite call_ret; [|imp_eval; reflexivity|apply find_GCD|reflexivity|exact E]);
-  imp_go; reflexivity.
-Qed.
-
-(* ==================================================================================== *)
-(* lib/mp/map.go calcIndex *)
-
-(* byte strings of the models (list N) as IMP arrays *)
-Definition zs (b : list N) : list Z := map Z.of_N b.
-
-Lemma list_eqb_zs a b : list_eqb (zs a) (zs b) = AmmoBytes.beq a b.
-Proof.
-  revert b; induction a as [|x a IH]; intros [|y b]; cbn [zs map list_eqb AmmoBytes.beq]; try reflexivity.
-  fold (zs a) (zs b). rewrite IH. f_equal.
-  destruct (N.eqb_spec x y) as [->|Hne]; [apply Z.eqb_refl|].
-  apply Z.eqb_neq. intros E. apply Hne. apply N2Z.inj. exact E.
-Qed.
-
-Lemma find_calcIndex : find_func "calcIndex" gen_prog_mp = Some gen_calcIndex.
-Proof. reflexivity. Qed.
-
-(* the externals of calcIndex: strconv.Atoi answers [at_] (on an error Go returns some value
-   [junk] together with a non-nil error), iter.Rand(n) is rand.Intn(n): panics for n <= 0 and
-   otherwise returns [rnd n], iter.Next returns [nxt] *)
-Definition mp_ext (at_ : option Z) (junk nxt : Z) (rnd : Z -> Z) : string -> list val -> option (list val) :=
-  fun f args =>
-    if String.eqb f "strconv.Atoi"
-    then Some (match at_ with Some i => [VInt i; VInt 0] | None => [VInt junk; VInt 1] end)
-    else if String.eqb f "iter.Rand"
-    then match args with [VInt l] => if l <=? 0 then None else Some [VInt (rnd l)] | _ => None end
-    else if String.eqb f "iter.Next" then Some [VInt nxt]
-    else None.
-
-Definition enc_rres (r : AmmoRobust.rres Z) : outcome :=
-  match r with
-  | AmmoRobust.VOk i => Ret [VInt i; VInt 0]       (* index, nil *)
-  | AmmoRobust.VErr => Ret [VInt 0; VInt 1]        (* 0, error *)
-  | AmmoRobust.VPanic => Panic
-  end.
-
-Ltac zs_rw := repeat match goal with |- context [list_eqb (zs ?a) (zs ?b)] => rewrite (list_eqb_zs a b) end.
-
-(* C13's model: for ALL index texts, lengths, counter and random values *)
-Lemma bridge_calcIndex0 idx seg len nxt rnd junk :
-  run gen_prog_mp (mp_ext (AmmoDecimal.atoi idx) junk nxt (fun _ => rnd)) 0 "calcIndex" [VArr (zs idx); VArr seg; VInt len]
-  = enc_rres (AmmoRobust.calc_index idx len nxt rnd).
-Proof.
-  unfold run. rewrite find_calcIndex. unfold gen_calcIndex, AmmoRobust.calc_index, enc_rres.
-  cbn [f_body f_params].
-  change [110; 101; 120; 116] with (zs AmmoRobust.NEXT).
-  change [114; 97; 110; 100] with (zs AmmoRobust.RAND).
-  change [108; 97; 115; 116] with (zs AmmoRobust.LAST).
-  destruct (len =? 0) eqn:Hl0; destruct (AmmoDecimal.atoi idx) as [i|] eqn:Hat; b2p;
-    imp_cbn; unfold mp_ext; imp_cbn; zs_rw; imp_rw;
-    repeat (imp_case; imp_cbn; zs_rw; imp_rw); try reflexivity; try lia.
-Qed.
-
-Lemma bridge_calcIndex idx seg len nxt rnd junk fuel :
-  run gen_prog_mp (mp_ext (AmmoDecimal.atoi idx) junk nxt (fun _ => rnd)) fuel "calcIndex" [VArr (zs idx); VArr seg; VInt len]
-  = enc_rres (AmmoRobust.calc_index idx len nxt rnd).
-Proof.
-  rewrite (run_mono _ _ 0 fuel); [apply bridge_calcIndex0|lia|].
-  rewrite bridge_calcIndex0. destruct (AmmoRobust.calc_index idx len nxt rnd); discriminate.
-Qed.
-
-(* C19's model (Model/Robust.v) abstracts the index text to an [index_spec]; [repr ix s] says which
-   texts an index_spec stands for and what strconv.Atoi answers on them *)
-Definition next_z : list Z := [110; 101; 120; 116].
-Definition rand_z : list Z := [114; 97; 110; 100].
-Definition last_z : list Z := [108; 97; 115; 116].
-
-Definition not_keyword (s : list Z) : Prop :=
-  list_eqb s next_z = false /\ list_eqb s rand_z = false /\ list_eqb s last_z = false.
-
-Definition repr (ix : Robust.index_spec) (s : list Z) (at_ : option Z) : Prop :=
-  match ix with
-  | Robust.INum i => not_keyword s /\ at_ = Some i
-  | Robust.IBad => not_keyword s /\ at_ = None
-  | Robust.INext => s = next_z /\ at_ = None
-  | Robust.IRand => s = rand_z /\ at_ = None
-  | Robust.ILast => s = last_z /\ at_ = None
-  end.
-
-Definition enc_outcome (r : Robust.outcome Z) : outcome :=
-  match r with
-  | Robust.Done i => Ret [VInt i; VInt 0]
-  | Robust.Failed => Ret [VInt 0; VInt 1]
-  | Robust.Panicked => Panic
-  end.
-
-Ltac leq_closed :=
-  repeat match goal with
-         | |- context [list_eqb ?a ?b] =>
-             let v := eval vm_compute in (list_eqb a b) in
-             lazymatch v with
-             | true => change (list_eqb a b) with true
-             | false => change (list_eqb a b) with false
-             end
-         end.
-
-Lemma bridge_calcIndex_C19_0 ix s at_ seg len counter rnd junk :
-  repr ix s at_ ->
-  run gen_prog_mp (mp_ext at_ junk counter (fun n => rnd mod n)) 0 "calcIndex" [VArr s; VArr seg; VInt len]
-  = enc_outcome (Robust.calc_index ix len counter rnd).
-Proof.
-  intros Hr. unfold run. rewrite find_calcIndex.
-  unfold gen_calcIndex, Robust.calc_index, Robust.go_rem, Robust.go_intn, enc_outcome. cbn [f_body f_params].
-  rewrite ?Z.geb_leb.
-  unfold repr, not_keyword, next_z, rand_z, last_z in Hr.
-  destruct ix; destruct Hr as (Hs & ->);
-    try (destruct Hs as (Hn & Hr & Hl)); try subst s;
-    destruct (len =? 0) eqn:Hl0; b2p;
-    imp_cbn; unfold mp_ext;
-    repeat (progress (imp_cbn; rewrite ?Hn, ?Hr, ?Hl; leq_closed; cbn [negb andb orb]; imp_rw));
-    repeat (imp_case; repeat (progress (imp_cbn; rewrite ?Hn, ?Hr, ?Hl; leq_closed; cbn [negb andb orb]; imp_rw)));
-    try reflexivity; try lia.
-Qed.
-
-Lemma bridge_calcIndex_C19 ix s at_ seg len counter rnd junk fuel :
-  repr ix s at_ ->
-  run gen_prog_mp (mp_ext at_ junk counter (fun n => rnd mod n)) fuel "calcIndex" [VArr s; VArr seg; VInt len]
-  = enc_outcome (Robust.calc_index ix len counter rnd).
-Proof.
-  intros Hr. rewrite (run_mono _ _ 0 fuel); [apply bridge_calcIndex_C19_0; exact Hr|lia|].
-  rewrite (bridge_calcIndex_C19_0 _ _ _ _ _ _ _ _ Hr).
-  destruct (Robust.calc_index ix len counter rnd); discriminate.
-Qed.
-
-(* ==================================================================================== *)
-(* components/guns/http/base.go autotag *)
-
-Lemma find_autotag : find_func "autotag" gen_prog_httpgun = Some gen_autotag.
-Proof. reflexivity. Qed.
-
-Definition autotag_loop : stmt :=
-  SFor (EBin OLt (EVar "ind") (ELen (EVar "path")))
-       (SIf (EBin OEq (EIdx (EVar "path") (EVar "ind")) (ELit 47))
-            (SSeq (SIf (EBin OEq (EVar "depth") (ELit 0)) SBreak SSkip)
-                  (SAssign ["depth"] [EBin OSub (EVar "depth") (ELit 1)]))
-            SSkip)
-       (SAssign ["ind"] [EBin OAdd (EVar "ind") (ELit 1)]).
-
-Definition autotag_env (d : Z) (P : list Z) (ind : Z) : env :=
-  [("depth", VInt d); ("URL.Path", VArr P); ("path", VArr P); ("ind", VInt ind)].
-
-Lemma zs_app a b : zs (a ++ b) = zs a ++ zs b.
-Proof. apply map_app. Qed.
-Lemma zs_length a : List.length (zs a) = List.length a.
-Proof. apply map_length. Qed.
-
-(* the scan follows autotag_go byte by byte: from position |pre| with depth d left, it stops
-   at position |pre| + |autotag_go d rest| *)
-Lemma autotag_loop_imp : forall rest pre d,
-  exists fuel d',
-    exec gen_prog_httpgun no_ext fuel autotag_loop
-         (autotag_env (Z.of_nat d) (zs (pre ++ rest)) (Z.of_nat (List.length pre)))
-    = SNormal (autotag_env d' (zs (pre ++ rest))
-                 (Z.of_nat (List.length pre + List.length (autotag_go d rest)))).
-Proof.
-  induction rest as [|c r IH]; intros pre d.
-  - exists O, (Z.of_nat d). unfold autotag_loop, autotag_env. cbn [autotag_go List.length].
-    rewrite Nat.add_0_r, app_nil_r. apply for_exit. imp_eval. rewrite zs_length.
-    rewrite Z.ltb_irrefl. reflexivity.
-  - assert (Hidx : index (zs (pre ++ c :: r)) (Z.of_nat (List.length pre)) = Ok (VInt (Z.of_N c))).
-    { rewrite zs_app. cbn [zs map]. rewrite <- (zs_length pre). apply index_app_mid. }
-    assert (Hlt : (Z.of_nat (List.length pre) <? Z.of_nat (List.length (zs (pre ++ c :: r)))) = true).
-    { apply Z.ltb_lt. rewrite zs_length, app_length. cbn [List.length]. lia. }
-    assert (Hpre : pre ++ c :: r = (pre ++ [c]) ++ r) by (rewrite <- app_assoc; reflexivity).
-    assert (Hlen : Z.of_nat (List.length pre) + 1 = Z.of_nat (List.length (pre ++ [c]))).
-    { rewrite app_length. cbn [List.length]. lia. }
-    cbn [autotag_go]. unfold slash.
-    destruct (N.eqb_spec c 47) as [->|Hc].
-    + destruct d as [|d].
-      * (* depth == 0 at a '/': break *)
-        exists 1%nat, 0. unfold autotag_loop, autotag_env. cbn [List.length]. rewrite Nat.add_0_r.
-        eapply for_break; [imp_eval; rewrite Hlt; reflexivity|discriminate|].
-        imp_cbn. rewrite Hidx. imp_cbn. reflexivity.
-      * destruct (IH (pre ++ [47%N]) d) as (fuel & d' & E).
-        exists (S fuel), d'. unfold autotag_loop, autotag_env in *.
-        rewrite Hpre. cbn [List.length].
-        replace (List.length pre + S (List.length (autotag_go d r)))%nat
-          with (List.length (pre ++ [47%N]) + List.length (autotag_go d r))%nat
-          by (rewrite app_length; cbn [List.length]; lia).
-        rewrite <- Hpre.
-        eapply for_unroll; [imp_eval; rewrite Hlt; reflexivity|discriminate| | |rewrite Hpre; exact E].
-        -- imp_cbn. rewrite Hidx. imp_cbn. imp_rw.
-           replace (Z.of_nat (S d) =? 0) with false by (symmetry; apply Z.eqb_neq; lia).
-           cbn [negb]. reflexivity.
-        -- imp_cbn. rewrite <- Hpre. repeat f_equal; lia.
-    + destruct (IH (pre ++ [c]) d) as (fuel & d' & E).
-      exists (S fuel), d'. unfold autotag_loop, autotag_env in *.
-      rewrite Hpre. cbn [List.length].
-      replace (List.length pre + S (List.length (autotag_go d r)))%nat
-        with (List.length (pre ++ [c]) + List.length (autotag_go d r))%nat
-        by (rewrite app_length; cbn [List.length]; lia).
-      rewrite <- Hpre.
-      eapply for_unroll; [imp_eval; rewrite Hlt; reflexivity|discriminate| | |rewrite Hpre; exact E].
-      -- imp_cbn. rewrite Hidx. imp_cbn. imp_rw.
-         replace (Z.of_N c =? 47) with false by (symmetry; apply Z.eqb_neq; lia).
-         cbn [negb]. reflexivity.
-      -- imp_cbn. rewrite <- Hpre. repeat f_equal; lia.
-Qed.
-
-(* autotag: for ALL depths >= 0 and ALL paths the translated function returns autotag_go *)
-Lemma bridge_autotag depth path :
-  exists fuel,
-    run gen_prog_httpgun no_ext fuel "autotag" [VInt (Z.of_nat depth); VArr (zs path)]
-    = Ret [VArr (zs (autotag_go depth path))].
-Proof.
-  destruct (autotag_loop_imp path [] depth) as (fuel & d' & E).
-  destruct (autotag_prefix depth path) as (rest & Hp).
-  exists fuel. unfold run. rewrite find_autotag. unfold gen_autotag. cbn [f_body f_params].
-  imp_eval. imp_go. fold autotag_loop.
-  cbn [app List.length Nat.add] in E. unfold autotag_env in E. cbn [Z.of_nat] in E.
-  rewrite E. imp_go.
-  rewrite Hp at 1. rewrite zs_app, <- (zs_length (autotag_go depth path)), slice_app_prefix. reflexivity.
-Qed.
-
-(* ==================================================================================== *)
-(* core/schedule/instance_step.go NewInstanceStep *)
-
-Lemma find_istep : find_func "NewInstanceStep" gen_prog_istep = Some gen_NewInstanceStep.
-Proof. reflexivity. Qed.
-
-(* the constructor calls appended to `nexts`, as the parts of Model/StartLoop.v:
-   NewOnce(n) = POnce n, NewConst(0, d) = PPause d *)
-Definition enc_part (p : part) : string * list Z :=
-  match p with
-  | POnce n => ("NewOnce", [n])
-  | PPause d => ("NewConst", [0; d])
-  | PConst n period d => ("PConst", [n; period; d])   (* never built by NewInstanceStep *)
-  end.
-
-Definition istep_loop_stmt : stmt :=
-  SFor (EBin OLe (EVar "i") (EVar "to"))
-       (SSeq (SAppend "nexts" "NewConst" [ELit 0; EVar "stepDuration"])
-             (SAppend "nexts" "NewOnce" [EVar "step"]))
-       (SAssign ["i"] [EBin OAdd (EVar "i") (EVar "step")]).
-
-Definition istep_env (from to step dur : Z) (acc : list (string * list Z)) (i : Z) : env :=
-  [("from", VInt from); ("to", VInt to); ("step", VInt step); ("stepDuration", VInt dur);
-   ("nexts", VRecs acc); ("i", VInt i)].
-
-Lemma istep_loop_imp : forall f i to step dur ps from acc,
-  istep_loop f i to step dur = Some ps ->
-  exists fuel i',
-    exec gen_prog_istep no_ext fuel istep_loop_stmt (istep_env from to step dur acc i)
-    = SNormal (istep_env from to step dur (acc ++ map enc_part ps) i').
-Proof.
-  induction f as [|f IH]; intros i to step dur ps from acc H; cbn [istep_loop] in H;
-    destruct (i <=? to) eqn:Hi; try discriminate.
-  - injection H as <-. exists O, i. cbn [map]. rewrite app_nil_r.
-    apply for_exit. unfold istep_env. imp_eval. rewrite Hi. reflexivity.
-  - destruct (istep_loop f (i + step) to step dur) as [r|] eqn:Er; [|discriminate].
-    injection H as <-.
-    destruct (IH _ _ _ _ _ from (acc ++ [("NewConst", [0; dur]); ("NewOnce", [step])]) Er) as (fuel & i' & E).
-    exists (S fuel), i'. unfold istep_loop_stmt, istep_env in *.
-    eapply for_unroll; [imp_eval; rewrite Hi; reflexivity|discriminate| | |].
-    + imp_cbn. reflexivity.
-    + imp_cbn. reflexivity.
-    + repeat rewrite <- app_assoc. repeat rewrite <- app_assoc in E. cbn [app map enc_part] in *. exact E.
-  - injection H as <-. exists O, i. cbn [map]. rewrite app_nil_r.
-    apply for_exit. unfold istep_env. imp_eval. rewrite Hi. reflexivity.
-Qed.
-
-(* NewInstanceStep: whenever the model's loop ends with [parts], so does the translated function,
-   for ALL from, to, step, stepDuration *)
-Lemma bridge_NewInstanceStep f from to step dur parts :
-  new_instance_step f from to step dur = Some parts ->
-  exists fuel,
-    run gen_prog_istep no_ext fuel "NewInstanceStep" [VInt from; VInt to; VInt step; VInt dur]
-    = Ret [VRecs (map enc_part parts)].
-Proof.
-  unfold new_instance_step. intros H.
-  destruct (istep_loop f (from + step) to step dur) as [r|] eqn:Er; [|discriminate].
-  injection H as <-.
-  destruct (istep_loop_imp _ _ _ _ _ _ from [("NewOnce", [from])] Er) as (fuel & i' & E).
-  exists fuel. unfold run. rewrite find_istep. unfold gen_NewInstanceStep. cbn [f_body f_params].
-  imp_eval. imp_go. fold istep_loop_stmt. unfold istep_env in E. cbn [app]. rewrite E. imp_go. reflexivity.
-Qed.
-
-(* ... and the model's loop does end for the configurations validation admits (from >= 0, step >= 1) *)
-Lemma bridge_NewInstanceStep_total from to step dur :
-  0 <= from -> 1 <= step ->
-  exists fuel parts,
-    new_instance_step (S (Z.to_nat to)) from to step dur = Some parts /\
-    run gen_prog_istep no_ext fuel "NewInstanceStep" [VInt from; VInt to; VInt step; VInt dur]
-    = Ret [VRecs (map enc_part parts)].
-Proof.
-  intros Hf Hs.
-  destruct (new_instance_step (S (Z.to_nat to)) from to step dur) as [parts|] eqn:E.
-  - destruct (bridge_NewInstanceStep _ _ _ _ _ _ E) as (fuel & R). exists fuel, parts. split; [reflexivity|exact R].
-  - exfalso. unfold new_instance_step in E.
-    destruct (istep_loop_spec dur step to Hs (S (Z.to_nat to)) (from + step) 0) as (ps & E' & _); [|rewrite E' in E; discriminate].
-    lia.
-Qed.
-
-(* ==================================================================================== *)
-(* core/coreutil/waiter.go Waiter.IsSlowDown, Waiter.Wait *)
-
-Lemma find_IsSlowDown : find_func "Waiter.IsSlowDown" gen_prog_waiter = Some gen_Waiter_IsSlowDown.
-Proof. reflexivity. Qed.
-Lemma find_Wait : find_func "Waiter.Wait" gen_prog_waiter = Some gen_Waiter_Wait.
-Proof. reflexivity. Qed.
-
-(* which select clause an input "$sel<k>" = 0, 1, ... names *)
-Lemma bridge_Waiter_selects :
-  gen_Waiter_IsSlowDown_selects = [["ctx.Done"; "default"]] /\
-  gen_Waiter_Wait_selects = [["ctx.Done"; "default"]; ["w.timer.C"; "ctx.Done"]] /\
-  gen_Waiter_Wait_returns = ["result0"; "w.overdueDuration"; "w.lastNow"; "w.timer"; "$timer"].
-Proof. repeat split; reflexivity. Qed.
-
-(* IsSlowDown: ctx done ($sel0 = 0) -> false; otherwise overdueDuration >= MaxOverdueDuration *)
-Lemma bridge_IsSlowDown st sel fuel :
-  run gen_prog_waiter no_ext fuel "Waiter.IsSlowDown" [VInt sel; VInt (overdue st)]
-  = Ret [VInt (if sel =? 0 then 0 else b2z (is_slow_down st))].
-Proof.
-  rewrite (run_mono _ _ 0 fuel); [| lia |];
-    unfold run; rewrite find_IsSlowDown; unfold gen_Waiter_IsSlowDown, is_slow_down, max_overdue;
-    cbn [f_body f_params]; imp_run; try reflexivity; discriminate.
-Qed.
-
-(* the externals of Wait: sched.Next() answers the token of the call, time.Now() its clock reading *)
-Definition wait_ext (c : wcall) (junk : Z) : string -> list val -> option (list val) :=
-  fun f _ =>
-    if String.eqb f "w.sched.Next"
-    then Some (match c_tok c with Some n => [VInt n; VInt 1] | None => [VInt junk; VInt 0] end)
-    else if String.eqb f "time.Now" then Some [VInt (c_now c)]
-    else if String.eqb f "time.NewTimer" then Some [VInt 1]
-    else if String.eqb f "w.timer.Reset" then Some []
-    else None.
-
-(* w.lastNow as an integer: the model's [None] is the zero time.Time, which is before every token *)
-Definition last_repr (st : wstate) (c : wcall) (L : Z) : Prop :=
-  match lastNow st with
-  | Some l => L = l
-  | None => match c_tok c with Some next => L < next | None => True end
-  end.
-
-(* the duration the timer is armed with, if this call gets as far as sleeping *)
-Definition wait_sleeps (st : wstate) (c : wcall) : option Z :=
-  if c_ctx_done c then None
-  else match c_tok c with
-       | None => None
-       | Some next =>
-           if match lastNow st with Some l => next - l <=? 0 | None => false end then None
-           else if next - c_now c <=? 0 then None else Some (next - c_now c)
-       end.
-
-Lemma bridge_Wait0 st c L tm junk :
-  last_repr st c L ->
-  run gen_prog_waiter (wait_ext c junk) 0 "Waiter.Wait"
-      [VInt (if c_ctx_done c then 0 else 1); VInt (overdue st); VInt L; VInt tm;
-       VInt (if c_cancel_in_sleep c then 1 else 0)]
-  = Ret [VInt (b2z (w_ok (snd (wait wfixed st c))));
-         VInt (overdue (fst (wait wfixed st c)));
-         VInt (match lastNow (fst (wait wfixed st c)) with Some l => l | None => L end);
-         VInt (match wait_sleeps st c with Some _ => if tm =? 0 then 1 else tm | None => tm end);
-         VInt (match wait_sleeps st c with Some d => d | None => 0 end)].
-Proof.
-  unfold last_repr, run. rewrite find_Wait.
-  unfold gen_Waiter_Wait, wait, wait_sleeps, max_overdue, wait_ext.
-  cbn [f_body f_params]. intros HL.
-  destruct (c_tok c) as [next|], (lastNow st) as [l|]; try subst L;
-    imp_run; cbn [fst snd w_ok overdue lastNow];
-    repeat match goal with
-           | H : ?x = true |- context [?x] => rewrite H
-           | H : ?x = false |- context [?x] => rewrite H
-           end; cbn [b2z negb];
-    try reflexivity; try lia; repeat f_equal; try lia.
-  Show.
-Qed.
